@@ -25,16 +25,21 @@ PROPS = {
     },
     "C14": {
         "module": "ZenonVerif.Props.C14",
-        "streams": [S("prio", 20000, 1000000), S("filter", 4000, 200000)],
+        "streams": [S("prio", 20000, 1000000), S("filter", 4000, 200000), S("pool", 400, 30000)],
         "rule": "prio stream: all ordered pairs of boundary (TotalPlasma, BasePlasma) values incl. 0 and the caps, then random "
                 "pairs (equal ratios, same plasma, same hash, hashes one bit apart, zero plasma, full uint64 range so the "
                 "products wrap, in-range), each evaluated in both directions on chain.higherPriority and on the model, plus "
                 "folds of 2-7 competitors in two random arrival orders; filter stream: block-type strings up to 300 long "
                 "(uniform types, contract batches incl. runs of 90-120 ContractSends, user blocks with batches, mostly "
-                "sends) through accountPool.filterBlocksToCommit and the model; distinct = distinct (op,result) lines",
+                "sends) through accountPool.filterBlocksToCommit and the model; pool stream: sequences of 5-34 operations on a real "
+                "chain.NewAccountPool for one address (add on top, competitor for a pooled height with equal/better/random "
+                "plasma, duplicates, competitor of a confirmed block, non-linking blocks, forced adds, momentum confirming "
+                "a prefix of the pool / a competitor / nothing, momentum rollback), after every operation the frontier and "
+                "the uncommitted blocks are compared with the Lean state machine; distinct = distinct (op,result) lines",
         "partial": "data-race freedom / readers never observing a half-applied block are runtime properties of Go's memory "
-                   "model, not theorems; the stateful pool model is tied to the real accountPool by the pure streams for the "
-                   "two decision functions only",
+                   "model, not theorems; the pool state machine (model and stream) covers one address and one-block transactions: "
+                   "contract receives with descendant blocks and the cross-address early return of rebuild (candidate F12) are "
+                   "outside the model (negative witness skipped_rebuild_breaks_single_chain)",
         "assumptions": ["accepted user blocks carry TotalPlasma <= MaxPlasmaForAccountBlock and 0 < BasePlasma <= "
                         "AccountBlockBasePlasma + ABByteDataPlasma*MaxDataLength (vm.enoughPlasma); blocks of embedded "
                         "addresses carry TotalPlasma = BasePlasma = 0"],
